@@ -509,8 +509,21 @@ def extra_options(extra, value, rng, data):
   raise ValueError(extra)
 EXTRAS = ['exotic', 'debug', 'title', 'color_fn', 'highlight', 'key_style_fn', 'include_fn', 'uncollapse_fn', 'hide_default', 'child_config']
 
-def render(value, kw, content_only=True):
+def render(value, kw, content_only=True, scoped=()):
+  """pg.to_html_str; the options named in `scoped` are given by an enclosing pg.view_options(...) scope instead of as arguments."""
+  if scoped:
+    outer = {k: v for k, v in kw.items() if k in scoped}
+    inner = {k: v for k, v in kw.items() if k not in scoped}
+    with pg().view_options(**outer):
+      return pg().to_html_str(value, content_only=content_only, **inner)
   return pg().to_html_str(value, content_only=content_only, **kw)
+
+SCOPABLE = ('enable_summary', 'enable_summary_for_str', 'max_summary_len_for_str', 'enable_summary_tooltip', 'enable_key_tooltip', 'key_style', 'collapse_level',
+            'include_keys', 'exclude_keys', 'css_classes', 'summary_color', 'key_color', 'uncollapse')
+
+class Exploding:
+  """An object whose repr raises: rendering must propagate the error and leave no per-thread state behind."""
+  def __repr__(self): raise RuntimeError('boom')
 
 def shape_of(value):
   items = child_items(value)
@@ -919,8 +932,10 @@ def run(ctx):
     shape = shape_of(value)
     ctx.hist('value_nodes', '1' if shape[0] == 1 else '2-5' if shape[0] <= 5 else '6-15' if shape[0] <= 15 else '16+')
     ctx.hist('value_depth', shape[1])
+    scoped = tuple(k for k in SCOPABLE if k in kw and rng.random() < 0.5) if rng.random() < 0.3 else ()
+    ctx.hist('options_from_enclosing_scope', len(scoped))
     try:
-      out = render(value, kw)
+      out = render(value, kw, scoped=scoped)
     except Exception as e:
       out = None
     if out is not None:
@@ -932,7 +947,7 @@ def run(ctx):
       impl_outs.append([0, trlib.enc(out)] if out is not None else None)
       descr.append(dict(spec=spec, value=repr(value)[:300], options=repr(kw)[:300]))
       try:
-        full = render(value, kw, content_only=False)
+        full = render(value, kw, content_only=False, scoped=scoped)
       except Exception:
         full = None
       trs.append([3, mo, mv])      # the whole document, head included
@@ -941,6 +956,18 @@ def run(ctx):
       if full is not None and len(full) < 9000 and rng.random() < 0.1:
         outputs.append(full)
   ctx.extra['sentinel_tagged_data'] = nsent
+  # ---- an error in the middle of rendering propagates and leaves the per-thread view state clean
+  for probe in ([1, {'a': Exploding()}], {'k': [Exploding()]}, Exploding()):
+    t0 = tls_state()
+    try:
+      with pg().view_options(enable_summary_tooltip=True):
+        render(probe, dict(collapse_level=None))
+      raised = False
+    except RuntimeError:
+      raised = True
+    if not raised or tls_state() != t0:
+      ctx.hit('C20/view-state-leak/after-error', 'an exception while rendering is swallowed or leaves view options / rendering stack behind', dict(spec=dict(kind='exploding')))
+    ctx.count(('exploding', repr(type(probe))), nontrivial=True, kind='error-propagation')
   n_tree = len(trs) // 2
   # ---- controls (oracle only)
   nctl = 0
@@ -1023,6 +1050,12 @@ def replay(ctx, rp):
   if spec.get('kind') == 'escape':
     s = spec['s']
     return html_lib.unescape(html_lib.escape(s)) == s
+  if spec.get('kind') == 'exploding':
+    t0 = tls_state()
+    try:
+      render([1, {'a': Exploding()}], dict(collapse_level=None)); return False
+    except RuntimeError:
+      return tls_state() == t0
   if spec.get('kind') == 'tree':
     out = build_tree(spec['tree'])
     out = out if isinstance(out, str) else out.to_str(content_only=True)
